@@ -948,29 +948,40 @@ func ruleCC5(c *Ctx, rule string) {
 		}
 		return "`" + truncate(exprString(e), 50) + "` is not a UTF-8 decoding"
 	}
-	// (a) class items built by the front end
-	if pk, fd := p.FuncDecl("internal/parser", "parser.on_char_class"); fd != nil {
+	// (a) class items built by the front end, wherever in the package the literal is written
+	if pk := p.Pkg("internal/parser"); pk != nil {
 		info := pk.TypesInfo
-		ast.Inspect(fd.Body, func(m ast.Node) bool {
-			cl, ok := m.(*ast.CompositeLit)
-			if !ok || !typeIs(info.TypeOf(cl), "internal/ast", "CharClassItem") {
-				return true
+		for _, f := range pk.Syntax {
+			if isGenFile(p, f) || isTestFile(p.Fset, f) {
+				continue
 			}
-			for _, fld := range []string{"From", "To"} {
-				v := kvOf(cl, fld)
-				if v == nil {
+			for _, d := range f.Decls {
+				fd, ok := d.(*ast.FuncDecl)
+				if !ok || fd.Body == nil {
 					continue
 				}
-				n++
-				why := classify(pk, fd, v, 0)
-				c.check(why == "", rule, "parser.on_char_class/bound("+fld+")", p.Pos(v.Pos()),
-					"the bound is the result of UTF-8 decoding: a code point in 0..U+10FFFF",
-					"a class bound is not a decoded code point ("+why+"): it can be -1 (\\UFFFFFFFF), which is the end-of-input marker the lexer must never consume, or lie above U+10FFFF")
+				ast.Inspect(fd.Body, func(m ast.Node) bool {
+					cl, ok := m.(*ast.CompositeLit)
+					if !ok || !typeIs(info.TypeOf(cl), "internal/ast", "CharClassItem") {
+						return true
+					}
+					for _, fld := range []string{"From", "To"} {
+						v := kvOf(cl, fld)
+						if v == nil {
+							continue
+						}
+						n++
+						why := classify(pk, fd, v, 0)
+						c.check(why == "", rule, "parser."+fd.Name.Name+"/bound("+fld+")", p.Pos(v.Pos()),
+							"the bound is the result of UTF-8 decoding: a code point in 0..U+10FFFF",
+							"a class bound is not a decoded code point ("+why+"): it can be -1 (\\UFFFFFFFF), which is the end-of-input marker the lexer must never consume, or lie above U+10FFFF")
+					}
+					return true
+				})
 			}
-			return true
-		})
+		}
 	} else {
-		c.unres(rule, "parser.on_char_class", "", "function not found")
+		c.unres(rule, "internal/parser", "", "package not found")
 	}
 	// (b) literals
 	if pk, fd := p.FuncDecl("internal/ast", "LexerTermLiteral.NFACons"); fd != nil {
